@@ -152,13 +152,19 @@ def props_settle(E, res):
     return P
 
 
-def build(tier):
-    O = miner_money.build_for('C01', tier)
+def build_settle(tier):
+    O = []
     for n in ([1, 2] if tier == 'quick' else [1, 2, 3]):
         O.append(Obligation('market.settle_deal_payments[%d deals%s]' % (n, '; index maintenance cut' if n >= 3 else ''), run_settle(n, n >= 3), props_settle,
                             descr='amounts slashed from timed-out proposals while settling a batch are burnt in full (one burn), nothing else leaves',
                             bounds='%d deal ids; CUTS: get_active_deal_or_process_timeout and process_deal_update replaced by result contracts (decided in C07/C08)' % n,
                             max_paths=200000))
+    return O
+
+
+def build(tier):
+    O = miner_money.build_for('C01', tier)
+    O += build_settle(tier)
     for o in C14.build(tier):
         if o.name.startswith('miner.withdraw_balance'):
             O.append(o)
